@@ -56,8 +56,11 @@ def run(S):
         v = numpy.array([F(x) for x in xs])
         if not numpy.all(numpy.diff(v) > 0):
             prob.append("not strictly increasing on the integer indices incl. guards")
-        g0, g0m = grad(f, 1e-5) * Nn, grad(f, -1e-5) * Nn
-        gN, gNp = grad(f, N - 1e-5) * Nn, grad(f, N + 1e-5) * Nn
+        # one-sided end gradients, extrapolated linearly to the end point from offsets e and 2e (the
+        # gradient of a strongly concave function changes noticeably within 1e-5 of an index)
+        e1 = lambda x0, sgn: (2 * grad(f, x0 + sgn * 1e-5) - grad(f, x0 + sgn * 2e-5)) * Nn
+        g0, g0m = e1(0.0, 1), e1(0.0, -1)
+        gN, gNp = e1(N, -1), e1(N, 1)
         for nm, got, want in (("ds/diN(0+)", g0, dl), ("ds/diN(0-)", g0m, dl), ("ds/diN(N-)", gN, du), ("ds/diN(N+)", gNp, du)):
             if abs(got - want) > 2e-3 * max(want, L * Nn / N):
                 prob.append("%s=%g, wanted %g" % (nm, got, want))
